@@ -19,6 +19,18 @@ def quiet():
     return contextlib.redirect_stderr(io.StringIO())
 
 
+def offset_with_seconds(case, name, kind):
+    """whether the minimum / maximum of a timezone-aware column lies where its zone's UTC offset is not a whole minute"""
+    for c in case['frame']['cols']:
+        if c['name'] == name and c['fam'] == 'datetime-tz':
+            vals = [pd.Timestamp(x, tz=c.get('tz', 'Europe/London')) for x in c['cells'] if x is not None]
+            if not vals:
+                return False
+            v = min(vals) if kind == 'min' else max(vals)
+            return v.utcoffset().total_seconds() % 60 != 0
+    return False
+
+
 class C01(core.Prop):
     pid = 'C01'
     lean_modules = ['TddaVerif.Props.C01']
@@ -53,7 +65,14 @@ class C01(core.Prop):
         ]
 
     def gen_case(self, rng, i):
-        return {'frame': cx.gen_frame(rng)}
+        fr = cx.gen_frame(rng)
+        if rng.random() < 0.08 and fr['nrows']:
+            fr['cols'].append({'name': 'when%d' % len(fr['cols']), 'fam': 'datetime-tz',
+                               'cells': cx.gen_cells(rng, 'datetime-tz', fr['nrows'])})
+        for c in fr['cols']:
+            if c['fam'] == 'datetime-tz' and rng.random() < 0.6:
+                c['tz'] = rng.choice(['America/St_Johns', 'Pacific/Marquesas', 'Asia/Kolkata', 'America/Caracas'])
+        return {'frame': fr}
 
     # correspondence: the discover op of C07 per column (keeps the model tied here too)
     def model_ops(self, case):
@@ -138,6 +157,10 @@ class C01(core.Prop):
                                     key = 'own-constraint-fails:%s:%s' % (k, fam)
                                     if k == 'rex' and foreign_digit(case, n):
                                         key = 'own-constraint-fails:rex:non-ascii-decimal-digit'
+                                    if k in ('min', 'max') and offset_with_seconds(case, n, k):
+                                        # cause established: the bound's UTC offset has seconds (a local mean time of
+                                        # before the zone's standard time), which the text layout of bounds cannot be read back from
+                                        key = 'own-constraint-fails:%s:utc-offset-with-seconds' % k
                                     if repair and not self._fails_without_repair(case, src, mode, n, k):
                                         key += ':repair-only'
                                     fail('own-constraint-fails', 'rex=%s %s %s repair=%s: %s.%s failed (%s)'
@@ -146,6 +169,7 @@ class C01(core.Prop):
                                 det = v.detected()
                                 if det is not None and len(det) > 0:
                                     badf = sorted({('non-ascii-decimal-digit' if k == 'rex' and foreign_digit(case, n)
+                                                    else 'utc-offset-with-seconds' if k in ('min', 'max') and offset_with_seconds(case, n, k)
                                                     else case_col_fam(case, n))
                                                    for n, fr in v.fields.items() for k, val in fr.items() if not val})
                                     fail('detect-reports-records', '%d failing records reported' % len(det),
